@@ -10,20 +10,25 @@
    [LInvalid] means the schedule violates a hypothesis of the liveness theorem (consensus /
    fairness clause of [env_ok]) or reverts the formation block.  No proofs. *)
 From HostdBase Require Import Base.
-From HostdActions Require Import Rows SqlSem Queries Model Proofs Liveness Liveness2.
+From HostdActions Require Import Rows SqlSem Queries Model Proofs Liveness Liveness2 Liveness2G Liveness2R.
 
 Inductive lop :=
 | LStart (p : params) | LMine (b : blk) | LRevert
-| L2Start (p : params2) | L2Mine (b : blk2) | L2Revert.
+| L2Start (p : params2) | L2Mine (b : blk2) | L2Revert
+(* WP-O: batches and failing actions (Liveness2G.gstep2 on the same world), the two-contract lifecycle (Liveness2R) *)
+| LGMine (b : blk2) (a : pact) | LGRevert (a : pact)
+| LRStart (q : rparams) | LRStep (e : rstep).
 
 Inductive lobs :=
 | LNone                                              (* nothing observed at this step *)
 | LInvalid | LCrashed
 | LRow (s : st1) (formed resolved : bool)            (* status, formation confirmed, resolution recorded *)
 | LRowS (s : st1) (formed resolved sent : bool)      (* ... and: a proof was broadcast at this tip *)
-| LRow2 (s : st2) (formed resolved : bool) (elem : option N) (sent : bool).
+| LRow2 (s : st2) (formed resolved : bool) (elem : option N) (sent : bool)
+(* predecessor row and flag, successor status (None: not negotiated), successor's root rows exist *)
+| LRowR (s : st2) (formed resolved : bool) (sent : bool) (succ : option st2) (sroots : bool).
 
-Inductive lstate := LS0 | LS1 (p : params) (w : world) | LS2 (p : params2) (w : world2).
+Inductive lstate := LS0 | LS1 (p : params) (w : world) | LS2 (p : params2) (w : world2) | LSR (q : rparams) (w : rworld).
 
 Definition lrow (w : world) : lobs :=
   match row w with
@@ -39,6 +44,15 @@ Definition lrow2 (w : world2) : lobs :=
   | _ => LCrashed
   end.
 
+Definition lrowr (w : rworld) : lobs :=
+  match row2 (pw w), srow w with
+  | Ok c, None => LRowR (c2_contract_status c) (is_some (c2_confirmation_index c)) (is_some (c2_resolution_index c))
+                        (hd false (sent2 (pw w))) None (sroots w)
+  | Ok c, Some (Ok s) => LRowR (c2_contract_status c) (is_some (c2_confirmation_index c)) (is_some (c2_resolution_index c))
+                        (hd false (sent2 (pw w))) (Some (c2_contract_status s)) (sroots w)
+  | _, _ => LCrashed
+  end.
+
 Definition lstep (s : lstate) (o : lop) : lstate * lobs :=
   match o, s with
   | LStart p, _ => (LS1 p (init_world p), lrow (init_world p))
@@ -51,6 +65,13 @@ Definition lstep (s : lstate) (o : lop) : lstate * lobs :=
       match step2 p w (Mine2 b) with Some w' => (LS2 p w', lrow2 w') | None => (LS0, LInvalid) end
   | L2Revert, LS2 p w =>
       match step2 p w Revert2 with Some w' => (LS2 p w', lrow2 w') | None => (LS0, LInvalid) end
+  | LGMine b a, LS2 p w =>
+      match gstep2 p w (GMine b a) with Some w' => (LS2 p w', lrow2 w') | None => (LS0, LInvalid) end
+  | LGRevert a, LS2 p w =>
+      match gstep2 p w (GRevert a) with Some w' => (LS2 p w', lrow2 w') | None => (LS0, LInvalid) end
+  | LRStart q, _ => (LSR q (init_rworld q), lrowr (init_rworld q))
+  | LRStep e, LSR q w =>
+      match rstep2 q w e with Some w' => (LSR q w', lrowr w') | None => (LS0, LInvalid) end
   | _, _ => (LS0, LInvalid)
   end.
 
@@ -62,6 +83,8 @@ Definition lobs_eqb (model seen : lobs) : bool :=
   | LRowS s f r b, LRowS s' f' r' b' => st1_eqb s s' && Bool.eqb f f' && Bool.eqb r r' && Bool.eqb b b'
   | LRow2 s f r e b, LRow2 s' f' r' e' b' =>
       st2_eqb s s' && Bool.eqb f f' && Bool.eqb r r' && option_eqb N.eqb e e' && Bool.eqb b b'
+  | LRowR s f r b su sr, LRowR s' f' r' b' su' sr' =>
+      st2_eqb s s' && Bool.eqb f f' && Bool.eqb r r' && Bool.eqb b b' && option_eqb st2_eqb su su' && Bool.eqb sr sr'
   | _, _ => false
   end.
 
